@@ -183,6 +183,8 @@ def judge(cid, r, env, g, vec, order, data, checks, res):
                 _fail(res, "compat", env, g, vec, "decode of the canonical image failed: %s" % text, **kw)
         return
     ok = r["ok"] == "1"
+    if "memsafe" in checks and r.get("ubsan"):
+        _fail(res, "memsafe", env, g, vec, "decode(%s, %s): undefined behaviour: %s" % (data.hex()[:200], order, r["ubsan"]), **kw)
     if "memsafe" in checks:
         _n(res, "memsafe")
         alloc = int(r["alloc"])
